@@ -679,8 +679,21 @@ func scenC15(w *vsim.World, spec *vsim.Spec) {
 			s.viol("C15", "container-stuck-without-process", string(ac.c.State), "container %s is still %s with no live crunch-run process %s after the last fault (bound %s); history: %s | starts: %s",
 				u, ac.c.State, since, B, strings.Join(ac.hist, ", "), strings.Join(s.historyOf(u), " | "))
 		case !isFinal(ac.c.State) && ac.c.Priority > 0 && ac.chosen:
-			s.viol("C15", "runnable-container-not-finished", string(ac.c.State), "container %s (priority %d) is %s (live process: %v) %s after the last fault (bound %s); history: %s | starts: %s | %s",
-				u, ac.c.Priority, ac.c.State, live, since, B, strings.Join(ac.hist, ", "), strings.Join(s.historyOf(u), " | "), s.describePool())
+			sig := string(ac.c.State)
+			// the at-quota thrash: in the quiet phase the dispatcher keeps creating instances and destroying them
+			// unused (many instances, hardly any crunch-run start) under a cloud quota of one to three instances
+			created, started := 0, 0
+			for _, in := range s.cloud.insts {
+				if in.created.After(quietStart) {
+					created++
+					started += len(in.vm.procs)
+				}
+			}
+			if s.k.Quota <= 3 && created >= 30 && started*8 <= created {
+				sig = "at-quota-thrash-instances-destroyed-unused"
+			}
+			s.viol("C15", "runnable-container-not-finished", sig, "container %s (priority %d) is %s (live process: %v) %s after the last fault (bound %s); %d instances created and %d crunch-run processes started since the faults stopped (quota %d); history: %s | starts: %s | %s",
+				u, ac.c.Priority, ac.c.State, live, since, B, created, started, s.k.Quota, strings.Join(ac.hist, ", "), strings.Join(s.historyOf(u), " | "), s.describePool())
 		}
 	}
 	for _, in := range s.cloud.insts {
